@@ -53,7 +53,8 @@ with alg :=
 | Values (rows : list sol)
 | Project (p : alg) (vs : list var)
 | Graph (g : tv) (p : alg)
-| Distinct (p : alg).
+| Distinct (p : alg)
+| Slice (start : N) (p : alg).      (* OFFSET start, no LIMIT (a sub-SELECT's solution modifier) *)
 
 (* ------------------------------------------------------------------ *)
 (* solutions *)
@@ -195,7 +196,11 @@ Definition bgp_vars (ts : list tpat) : list var := flat_map tpat_vars ts.
 (* ------------------------------------------------------------------ *)
 (* cases and observations of the correspondence check *)
 
-Inductive form := FSelect | FAsk | FConstruct (template : list tpat).
+Inductive form := FSelect | FAsk | FConstruct (template : list tpat)
+| FStar (vs : list var).   (* CONSTRUCT over a template whose triples share ONE blank node as subject and hold one
+                              variable each: one fresh node per solution (16.2.1), observed as the multiset of the
+                              stars, i.e. of the solutions restricted to the template's variables (a solution that
+                              instantiates no template triple leaves no node) *)
 
 Record case := { c_ds : dataset; c_form : form; c_alg : alg }.
 
@@ -231,4 +236,7 @@ Definition answer (f : form) (rows : list sol) : obs :=
   | FSelect => RSel rows
   | FAsk => RAsk (match rows with [] => false | _ => true end)
   | FConstruct tpl => RCons (fill_template tpl rows)
+  | FStar vs =>
+      RSel (filter (fun m : sol => match m with [] => false | _ => true end)
+                   (map (restrict (fun v => memv v vs)) rows))
   end.
